@@ -1,6 +1,7 @@
 SPECIFICATION Spec
 CONSTANTS
   MaxSet = 2
+  Bases <- BasesNone
   Ordered = TRUE
 INVARIANTS TypeOK NoLeak Partition Recovered
 VIEW View
